@@ -67,3 +67,44 @@ fn witness_c10_repetition_window() {
     }
     assert_eq!(bad, 0);
 }
+
+/// only the game given with the LAST position command counts: what an earlier game (or an earlier search) left behind must not
+/// turn a first occurrence into a repetition.  Game 1 shuffles a queen and a king; game 2 starts from a FEN with a non-zero
+/// half-move clock, so its repetition window reaches back to plies the second command never wrote.
+#[test]
+fn witness_c10_earlier_games_do_not_count() {
+    let two_games = |first_fen: &str, first_moves: &[&str], fen: &str, moves: &[&str], only: &str| -> Score {
+        let (tx, rx) = channel();
+        let mut engine = Engine::new(Arc::new(CommandUciTx::new(tx)), false);
+        engine.accept(UciCommand::UciNewGame);
+        engine.accept(UciCommand::PositionFrom { fen: Fen::from_str(first_fen).unwrap(), moves: first_moves.iter().map(|s| UciMove::parse(s).unwrap()).collect() });
+        engine.accept(UciCommand::Go { go: Go { depth: Some(1), ..Go::default() } });
+        while let Ok(c) = rx.recv() { if let UciTxCommand::BestMove { .. } = c { break; } }
+        engine.accept(UciCommand::UciNewGame);
+        engine.accept(UciCommand::PositionFrom { fen: Fen::from_str(fen).unwrap(), moves: moves.iter().map(|s| UciMove::parse(s).unwrap()).collect() });
+        engine.accept(UciCommand::Go { go: Go { depth: Some(1), search_moves: vec![UciMove::parse(only).unwrap()], ..Go::default() } });
+        let mut last = None;
+        while let Ok(c) = rx.recv() {
+            match c {
+                UciTxCommand::Info { info } => { if info.score.is_some() { last = info.score; } }
+                UciTxCommand::BestMove { .. } => break,
+                _ => {}
+            }
+        }
+        engine.accept(UciCommand::Quit);
+        last.expect("no score")
+    };
+    let mut bad = 0;
+    for clock in [4u32, 10, 30] {
+        let first = "4k3/8/8/8/8/8/8/Q3K3 w - - 0 1";
+        let first_moves = ["a1a2", "e8d8", "a2a1", "d8e8", "a1a2", "e8d8", "a2a1"];
+        let fen = format!("4k3/8/8/8/8/8/8/1Q2K3 w - - {} 5", clock);
+        let fresh = last_score(&fen, &[], "b1a2", 1);
+        let after = two_games(first, &first_moves, &fen, &[], "b1a2");
+        if fresh != after || is_draw(&after) {
+            println!("FAILING-INPUT: after an earlier game {:?} {:?}, position {:?} go depth 1 searchmoves b1a2 is valued {:?}; a fresh engine values it {:?}", first, first_moves, fen, after, fresh);
+            bad += 1;
+        }
+    }
+    assert_eq!(bad, 0);
+}
